@@ -69,6 +69,11 @@ func VerifyFunc(p *Prog, fi *FuncInfo, modeOverride string) *VC {
 			return vc
 		}
 	}
+	if ct != nil {
+		for _, ln := range ct.Lemmas {
+			vc.assumeAutoLemma(ln)
+		}
+	}
 	if !vc.noSafety {
 		if o := vc.oblige(st, "canary", "entry", fi.Decl.Pos(), False, "precondition satisfiable"); o != nil {
 			o.Canary = true
@@ -150,15 +155,42 @@ func (vc *VC) applyHintsEnv(fr *frame, st, old *State, label string, names map[s
 	}
 }
 
-// splitConj splits a top-level conjunction into its conjuncts.
+// splitConj splits a goal into independently provable conjuncts, distributing over
+// universal quantifiers and implications: forall x. (G => A && B) becomes two goals.
 func splitConj(t Term) []Term {
-	if strings.HasPrefix(t.S, "(and ") {
-		parts := splitTop(t.S[5 : len(t.S)-1])
+	s := t.S
+	switch {
+	case strings.HasPrefix(s, "(and "):
+		parts := splitTop(s[5 : len(s)-1])
 		var out []Term
 		for _, p := range parts {
 			out = append(out, splitConj(Term{p, SBool})...)
 		}
 		return out
+	case strings.HasPrefix(s, "(=> "):
+		parts := splitTop(s[4 : len(s)-1])
+		if len(parts) == 2 {
+			sub := splitConj(Term{parts[1], SBool})
+			if len(sub) > 1 {
+				var out []Term
+				for _, c := range sub {
+					out = append(out, Term{"(=> " + parts[0] + " " + c.S + ")", SBool})
+				}
+				return out
+			}
+		}
+	case strings.HasPrefix(s, "(forall "):
+		parts := splitTop(s[8 : len(s)-1])
+		if len(parts) == 2 && !strings.HasPrefix(parts[1], "(! ") {
+			sub := splitConj(Term{parts[1], SBool})
+			if len(sub) > 1 {
+				var out []Term
+				for _, c := range sub {
+					out = append(out, Term{"(forall " + parts[0] + " " + c.S + ")", SBool})
+				}
+				return out
+			}
+		}
 	}
 	return []Term{t}
 }
@@ -186,6 +218,13 @@ func VerifyLemma(p *Prog, lm *Lemma) *VC {
 		}
 		c := vc.declConst("p!"+prm.Name, vc.sortOf(t))
 		env.names[prm.Name] = binding{c, t}
+	}
+	for _, ln := range lm.AutoUses {
+		if ln == lm.Name {
+			vc.errorf(token.NoPos, "lemma %s uses itself", lm.Name)
+			continue
+		}
+		vc.assumeAutoLemma(ln)
 	}
 	prove := func(tag string, env *specEnv, hyp []Term) {
 		for _, h := range hyp {
@@ -240,4 +279,57 @@ func VerifyLemma(p *Prog, lm *Lemma) *VC {
 	hyp := Implies(And(pre...), And(post...))
 	prove("ind", env, []Term{hyp})
 	return vc
+}
+
+// assumeAutoLemma adds a (separately proved) lemma as a universally quantified fact with its
+// declared triggers.
+func (vc *VC) assumeAutoLemma(name string) {
+	lm, ok := vc.P.Specs.Lemmas[name]
+	if !ok {
+		vc.errorf(token.NoPos, "unknown lemma %s", name)
+		return
+	}
+	if vc.UsedLemmas[name+"!auto"] {
+		return
+	}
+	vc.UsedLemmas[name+"!auto"] = true
+	vc.UsedLemmas[name] = true
+	st := &State{pc: True, vars: map[*types.Var]Val{}, heaps: map[string]Term{}, alloc: Term{"alloc0", SInt}}
+	env := &specEnv{vc: vc, st: st, names: map[string]binding{}, pkg: vc.pkgByPath(lm.Pkg)}
+	var bvs []Term
+	for _, prm := range lm.Params {
+		t := env.resolveType(prm.Type)
+		if t == nil {
+			vc.errorf(token.NoPos, "lemma %s: unknown type %s", lm.Name, prm.Type)
+			return
+		}
+		bv := Term{prm.Name + "?", vc.sortOf(t)}
+		bvs = append(bvs, bv)
+		env.names[prm.Name] = binding{bv, t}
+	}
+	var pre, post []Term
+	for _, rq := range lm.Requires {
+		pre = append(pre, env.evalBool(rq.Expr))
+	}
+	for _, en := range lm.Ensures {
+		post = append(post, env.evalBool(en.Expr))
+	}
+	var pats [][]Term
+	for _, tr := range lm.Triggers {
+		var pat []Term
+		for _, part := range splitTopComma(tr) {
+			e, err := ParseSpecExpr(part)
+			if err != nil {
+				vc.errorf(token.NoPos, "lemma %s: bad trigger %q: %v", lm.Name, part, err)
+				continue
+			}
+			t, _ := env.evalTerm(e)
+			pat = append(pat, t)
+		}
+		pats = append(pats, pat)
+	}
+	if len(pats) == 0 {
+		vc.errorf(token.NoPos, "lemma %s used automatically needs a trigger", lm.Name)
+	}
+	vc.assumeGlobal(Forall(bvs, pats, Implies(And(pre...), And(post...))))
 }
